@@ -18,18 +18,29 @@ import (
 	"go/ast"
 	"go/token"
 	"go/types"
+	"strings"
 
 	"golang.org/x/tools/go/cfg"
 )
 
 func init() {
+	register("C09",
+		"C09-e = C16-g, for its settling clause: the converter job's completion clears the running-flag before it re-applies the streams recorded during the job; re-applying under a set flag records them again, so the mask never empties and converter jobs restart for ever.",
+		func(p *Prog, r *Res) { ruleC16SnapshotMode(p, r, true) })
 	register("C16",
-		"C16-g (CTX + FLOW, sibling agreement with C06-c): every call of CachedConverter.Data (the only store into a converter cache, keyed by stream id) outside the service goroutine is re-validated. For a job worker: (1) the function that applies InvalidateChangedStreams at import completion ORs its argument into a Manager bitmask M on every path on which the worker's running-flag may be set, (2) the worker's completion closure clears the flag, and on every path on which M is non-empty calls that function with the value of M before the next job can be started, and (3) resets M. A store made from a View's snapshot on a request goroutine has no completion on the service goroutine and is reported as a violation.",
+		"C16-g (CTX + FLOW, sibling agreement with C06-c): every call of CachedConverter.Data (the only store into a converter cache, keyed by stream id) outside the service goroutine is re-validated. For a job worker: (1) the function that applies InvalidateChangedStreams at import completion ORs its argument into a Manager bitmask M on every path on which the worker's running-flag may be set, (2) the worker's completion closure clears the flag first, and then on every path on which M is non-empty calls that function with the value of M before the next job can be started, and (3) resets M. A store made from a View's snapshot on a request goroutine has no completion on the service goroutine and is reported as a violation.",
 		ruleC16Snapshot)
 }
 
-func ruleC16Snapshot(p *Prog, r *Res) {
-	const rule = "C16-g snapshot-conversions-revalidated"
+func ruleC16Snapshot(p *Prog, r *Res) { ruleC16SnapshotMode(p, r, false) }
+
+// ruleC16SnapshotMode: settlingOnly restricts the report to the clause C09 needs (flag cleared before the re-apply);
+// the freshness clauses, including the known finding on the on-demand path, belong to C16.
+func ruleC16SnapshotMode(p *Prog, r *Res, settlingOnly bool) {
+	rule := "C16-g snapshot-conversions-revalidated"
+	if settlingOnly {
+		rule = "C09-e reapply-after-flag-clear"
+	}
 	r.Rule(rule + ": converter output stored from an index snapshot is invalidated again if the stream changed meanwhile")
 	ctx := p.Contexts()
 	dataM := p.Method("converters", "CachedConverter", "Data")
@@ -126,6 +137,9 @@ func ruleC16Snapshot(p *Prog, r *Res) {
 			}
 			completions := ctx.completionsIn(root)
 			if starter == nil || len(completions) == 0 {
+				if settlingOnly {
+					continue
+				}
 				r.Bad(rule, key, p.Pos(c), "output is computed from the caller's index snapshot (a View held by a request goroutine) and stored under the stream id; an import that extended the stream after the snapshot was taken has already run its invalidation, and no completion on the service goroutine re-validates the store: the stale output is served until the stream changes again")
 				continue
 			}
@@ -147,6 +161,7 @@ func ruleC16Snapshot(p *Prog, r *Res) {
 				continue
 			}
 			okAll := true
+			orderBad := false
 			var why []string
 			// (2)+(3) completion: clears the flag, re-applies M, resets M
 			var M *types.Var
@@ -256,6 +271,22 @@ func ruleC16Snapshot(p *Prog, r *Res) {
 					okAll = false
 					why = append(why, "in "+comp.Key()+" a path with recorded streams reaches the next job start or the end without re-applying them ("+cfl.traceString(res)+")")
 				}
+				// the flag is cleared BEFORE the re-apply: the invalidation function records its argument while the flag
+				// is set, so a re-apply under a set flag refills M with the very streams it is applying — every later
+				// completion invalidates and re-converts them again, for ever
+				isClear := func(n ast.Node) bool {
+					as, ok := n.(*ast.AssignStmt)
+					if !ok || len(as.Lhs) != 1 || len(as.Rhs) != 1 {
+						return false
+					}
+					id, ok := as.Rhs[0].(*ast.Ident)
+					return ok && id.Name == "false" && mgrField(cinfo, as.Lhs[0]) == flag
+				}
+				if early := cfl.Reach([]Pt{cfl.Entry()}, func(n ast.Node) bool { h, _ := isReapply(n); return h }, isClear); early.Found {
+					okAll = false
+					orderBad = true
+					why = append(why, "in "+comp.Key()+" the recorded streams are re-applied while "+flag.Name()+" is still set ("+cfl.traceString(early)+"): the invalidation records them again, the mask never empties and every completion starts another job")
+				}
 				// reset of M
 				resets := false
 				inspectShallow(comp.Body(), func(x ast.Node) bool {
@@ -323,6 +354,19 @@ func ruleC16Snapshot(p *Prog, r *Res) {
 					}
 				}
 			}
+			if settlingOnly {
+				skey := fmt.Sprintf("%s completion clears %s before re-applying the recorded streams", root.Key(), flag.Name())
+				if orderBad {
+					for _, w := range why {
+						if strings.Contains(w, "still set") {
+							r.Bad(rule, skey, p.Pos(c), w)
+						}
+					}
+				} else {
+					r.Ok(rule, skey, p.Pos(c), "the flag is cleared on every path before the invalidation is re-applied")
+				}
+				continue
+			}
 			if okAll {
 				r.Ok(rule, key, p.Pos(c), fmt.Sprintf("job %s: import completions record updated streams in Manager.%s while %s is set; the completion re-applies and resets it before the next job", root.Key(), M.Name(), flag.Name()))
 			} else {
@@ -332,5 +376,9 @@ func ruleC16Snapshot(p *Prog, r *Res) {
 			}
 		}
 	}
-	r.Floor(rule, 2, nSites)
+	if !settlingOnly {
+		r.Floor(rule, 2, nSites)
+	} else {
+		r.Floor(rule, 1, r.CountRule(rule))
+	}
 }
